@@ -516,7 +516,13 @@ class NPShim:
             c = d.const()
             if c is not None and u.const() is not None:
                 return abs(c) <= 1e-8 + 1e-5 * abs(v.const())
-            return Cond("isclose", u, v)
+            return Cond("isclose", u, v, text=("tol", tol_r, tol_a))
+        def _num(t, dflt):
+            try:
+                return float(unwrap(t)) if t is not None else dflt
+            except Exception:
+                return None
+        tol_r, tol_a = _num(rtol, 1e-5), _num(atol, 1e-8)
         a, b = to_obj(unwrap(a)), to_obj(unwrap(b))
         if is_arr(a) or is_arr(b):
             a, b = np.broadcast_arrays(np.asarray(a, dtype=object), np.asarray(b, dtype=object))
@@ -542,7 +548,7 @@ class NPShim:
         if not is_arr(x):
             return bool(x)
         if axis is not None:
-            raise Unsupported("np.any with axis")
+            return np.apply_along_axis(lambda r: any(bool(v) for v in r), axis, x).astype(bool)
         return any(bool(v) for v in x.flat)
 
     def all(self, x, axis=None):
@@ -550,7 +556,7 @@ class NPShim:
         if not is_arr(x):
             return bool(x)
         if axis is not None:
-            raise Unsupported("np.all with axis")
+            return np.apply_along_axis(lambda r: all(bool(v) for v in r), axis, x).astype(bool)
         return all(bool(v) for v in x.flat)
 
     def where(self, c, a=None, b=None):
